@@ -24,6 +24,7 @@ def shards(tier, seed):
     n = 12 if tier == "quick" else 64
     out = [{"name": f"h-{i}", "i": i, "tier": tier, "seed": seed} for i in range(n)]
     out += [{"name": f"many-streams-{i}", "many": True, "tier": tier, "seed": seed} for i in range(2 if tier == "quick" else 8)]
+    out += [{"name": "threads", "threads": True, "tier": tier, "seed": seed}]
     return out
 
 
@@ -344,15 +345,126 @@ def run_many_streams(spec, acc):
             if rest and ov != oa:
                 acc.violation("history-changes-fast-packet-probe", f"PGN {d.pgn}: a transfer on (source {s0}, destination {a0}) interrupted by complete messages on neighbouring streams "
                               f"ends in {ov[-1][0]}, uninterrupted in {oa[-1][0]}", {"pgn": d.pgn, "stream": [s0, a0], "sequence_counter": q})
+        # a long message loses its tail; then only SHORT messages follow on that stream (they fit into one frame), each with the
+        # next sequence counter; then a long one again - after 0 .. 9 short ones, so that its counter (the next in turn, fresh by
+        # the protocol's rule) is sooner or later the one the abandoned message had. It decodes as on a fresh decoder.
+        for j_short in range(10):
+            s0 = rng.randrange(0, 250)
+            pgn_ = 130816 if j_short % 2 else 126720
+            a0 = 255 if pgn_ == 130816 else rng.randrange(0, 250)
+            q = rng.randrange(8)
+            head_ = bytes([0xFE, 0x07])                   # manufacturer 2046 (nobody's), industry 0: the catch-all definition
+            victim3 = NMEA2000Decoder()
+            ident = wire.can_id(3, pgn_, s0, a0)
+            long1 = head_ + bytes(rng.randrange(1, 250) for _ in range(rng.choice([12, 25, 40])))
+            fr1 = wire.fast_frames(long1, q, 0xFF)
+            for f in fr1[:rng.randint(1, len(fr1) - 1)]:
+                call(victim3, ("decode_tcp", wire.ebyte_frame(ident, f), {}))
+            ok_ = True
+            for k_ in range(j_short):
+                short_ = head_ + bytes(rng.randrange(1, 250) for _ in range(rng.randint(1, 4)))
+                pr = [("decode_tcp", wire.ebyte_frame(ident, f), {}) for f in wire.fast_frames(short_, (q + 1 + k_) % 8, 0xFF)]
+                fresh3 = NMEA2000Decoder()
+                ov, of = [call(victim3, i) for i in pr], [call(fresh3, i) for i in pr]
+                acc.count("probes_compared")
+                if ov != of:
+                    acc.violation("history-changes-fast-packet-probe", f"PGN {pgn_}: short message {k_ + 1} after an abandoned long one decodes differently than on a fresh decoder "
+                                  f"({ov[-1][0]} vs {of[-1][0]})", {"pgn": pgn_, "stream": [s0, a0], "abandoned_counter": q, "short_messages_before": k_})
+                    ok_ = False
+                    break
+            if not ok_:
+                continue
+            long2 = head_ + bytes(rng.randrange(1, 250) for _ in range(rng.choice([12, 25, 40])))
+            q2 = (q + 1 + j_short) % 8
+            pr = [("decode_tcp", wire.ebyte_frame(ident, f), {}) for f in wire.fast_frames(long2, q2, 0xFF)]
+            fresh3 = NMEA2000Decoder()
+            ov, of = [call(victim3, i) for i in pr], [call(fresh3, i) for i in pr]
+            acc.count("probes_compared")
+            acc.count("long_message_after_abandoned_one_and_short_ones_compared")
+            acc.cover("short_messages_between_abandoned_and_probe", j_short)
+            if ov != of or of[-1][0] != "msg":
+                acc.violation("history-changes-fast-packet-probe", f"PGN {pgn_}: a long message abandoned with counter {q}, then {j_short} short messages, then a complete long "
+                              f"message with the next counter {q2}: {ov[-1][0]} vs {of[-1][0]} on a fresh decoder (or another content)",
+                              {"pgn": pgn_, "stream": [s0, a0], "abandoned_counter": q, "short_messages_between": j_short, "probe_counter": q2})
         acc.case(("many-streams", rep, n_streams) if compared else None)
         acc.count("determinism_histories")
         acc.count("isolation_subhistories")
         acc.cover("leftover_stream_counts", n_streams)
 
 
+def run_threads(spec, acc):
+    """Instances are independent also when they work at the same time: four threads, each with a decoder (and histories) of its
+    own, nothing shared by the application. What every decoder returns for its history is what a decoder returns for that
+    history when it is alone in the process (computed first, single-threaded). Units, filters and the network map are on in
+    some of the threads and off in others."""
+    import sys
+    import threading
+    dbx = refdb.db()
+    rng = gen.rng_for(spec["seed"], ID, spec["name"])
+    quick = spec["tier"] == "quick"
+    n_threads = 4
+    cfgs = [{}, {"preferred_units": unit_prefs(0)}, {"build_network_map": True}, {"preferred_units": unit_prefs(1), "exclude_pgns": [130999], "build_network_map": True}]
+    plans = []
+    for t in range(n_threads):
+        hs = []
+        for _ in range(6 if quick else 40):
+            pool = hist.Pool(dbx, rng, n_single=5, n_fast=4)
+            sources = hist.pick_sources(rng, 3)
+            claims = {s_: [hist.pick_name(rng)] for s_ in sources}
+            events = hist.build_history(pool, rng, sources, 60 if quick else 120, claims, p_claim=0.1)
+            inputs = [ev_input(ev, rng) for ev in events]
+            alone = NMEA2000Decoder(**cfgs[t])
+            alone._vf_plain = True
+            hs.append((inputs, [call(alone, i) for i in inputs]))
+        plans.append(hs)
+    wrong, errors = [], []
+    start = threading.Barrier(n_threads)
+
+    def work(t):
+        try:
+            start.wait()
+            for rnd in range(3 if quick else 10):
+                for inputs, want in plans[t]:
+                    dec = NMEA2000Decoder(**cfgs[t])
+                    dec._vf_plain = True
+                    got = [call(dec, i) for i in inputs]
+                    if got != want:
+                        pos = next(k for k, (a, b) in enumerate(zip(got, want)) if a != b)
+                        wrong.append((t, pos, repr(got[pos])[:300], repr(want[pos])[:300]))
+                        return
+        except Exception as e:  # noqa: BLE001
+            errors.append(f"{type(e).__name__}: {e}")
+    old = sys.getswitchinterval()
+    sys.setswitchinterval(1e-6)
+    try:
+        ts = [threading.Thread(target=work, args=(t,)) for t in range(n_threads)]
+        for t_ in ts:
+            t_.start()
+        for t_ in ts:
+            t_.join(900)
+    finally:
+        sys.setswitchinterval(old)
+    n = sum(len(i) for hs in plans for i, _ in hs) * (3 if quick else 10)
+    acc.count("inputs_decoded_in_concurrent_threads", n)
+    acc.count("determinism_histories", sum(len(hs) for hs in plans))
+    acc.count("isolation_subhistories", sum(len(hs) for hs in plans))
+    acc.count("probes_compared", n)
+    acc.count("bad_inputs_given", 0)
+    acc.case(("threads", n_threads, n))
+    acc.sample({"threads": n_threads, "configurations": [repr(c) for c in cfgs], "inputs": n})
+    if errors:
+        acc.violation("decode-raised-in-concurrent-threads", f"decoders of their own in {n_threads} threads: {errors[0]}", {"errors": errors[:5]})
+    if wrong:
+        t, pos, got, want = wrong[0]
+        acc.violation("same-history-different-results", f"thread {t} (config {cfgs[t]}): input {pos} of a history gives {got[:120]} while other threads decode on decoders of "
+                      f"their own, {want[:120]} when the decoder is alone in the process", {"thread": t, "config": repr(cfgs[t]), "position": pos, "got": got, "alone": want})
+
+
 def run_shard(spec, acc):
     if spec.get("many"):
         return run_many_streams(spec, acc)
+    if spec.get("threads"):
+        return run_threads(spec, acc)
     dbx = refdb.db()
     rng = gen.rng_for(spec["seed"], ID, spec["name"])
     quick = spec["tier"] == "quick"
